@@ -187,7 +187,7 @@ def gen_program(rng, cfg=None):
                     # the key may be any member: 64-bit integers, fixed strings, MetaData-typed members
                     alt = rng.choice(["u64", "i64", "fixed", "meta"])
                     mk = [m for m in metas if isinstance(m, dict) and not m.get("repeat")
-                          and ((m["kind"] == "scalar" and m["type"] in INTS) or (m["kind"] == "fixed" and not m["z"]) or m["kind"] == "dyn")]
+                          and ((m["kind"] == "scalar" and m["type"] in INTS) or (m["kind"] == "fixed" and not m["z"] and m["n"] >= 3) or m["kind"] == "dyn")]     # "K15" must fit
                     if alt in ("u64", "i64"):
                         ktype = alt
                     elif alt == "fixed" and cfg.string_keys:
@@ -216,6 +216,12 @@ def gen_program(rng, cfg=None):
                     # the largest value of the key's type (for u32 / 64-bit keys beyond a Java int literal)
                     top = 2 ** (int(ktype[1:]) - (1 if ktype[0] == "i" else 0)) - 1
                     pairs.append({"keys": [str(top)], "list": False, "target": rng.choice(targets)})
+                if cfg.wide_keys and rng.random() < 0.4:
+                    # pairs (and the keys inside a list) in any order: a table is a set of keys, `2 : A, 10 : B, 1 : C`
+                    rng.shuffle(pairs)
+                    for pr in pairs:
+                        if pr["list"] and rng.random() < 0.5:
+                            rng.shuffle(pr["keys"])
                 if kfield is not None:
                     fields.append(kfield)
                 elif ktype == "string":
@@ -490,7 +496,12 @@ def render(prog, L=None):
         elif o == "reversed":
             parts = parts[::-1]
         else:
-            random.Random(o).shuffle(parts)
+            # a stable pseudo-random order: each definition gets its own key, so that adding or removing one block (a rewrite
+            # that adds an options block, say) leaves the relative order of all the others alone
+            import hashlib
+            labels = (["options#%d" % i for i in range(no)] + ["meta:" + m["name"] for m in prog["metas"]] +
+                      ["packet:" + p["name"] for p in prog["packets"]])
+            parts = [x for _, x in sorted(zip(labels, parts), key=lambda lx: hashlib.sha256(("%s|%s" % (o, lx[0])).encode()).hexdigest())]
     return (L.nl(0) + ("\n" if not L.wild else "")).join(parts) + "\n"
 
 
